@@ -55,6 +55,9 @@ pub struct Case {
     pub stop: u64,
     pub cache: &'static str, // fresh | keep | off
     pub tag: String,
+    /// game clock for both sides (ms) and the virtual-clock divisor (0 = no clock limits)
+    pub clock_ms: u64,
+    pub vdiv: u64,
 }
 
 pub fn setup_board(fen: &str, moves: &[String]) -> Option<Board> {
@@ -79,7 +82,7 @@ pub fn run_case_best(c: &Case) -> Option<Ply> {
         c.nodes.map_or("-".to_string(), |n| n.to_string()),
         c.stop,
         c.cache,
-        if c.tag.is_empty() { String::new() } else { format!(" {}", c.tag) }
+        if c.vdiv > 0 { format!(" clock={} vdiv={}{}", c.clock_ms, c.vdiv, if c.tag.is_empty() { String::new() } else { format!(" {}", c.tag) }) } else if c.tag.is_empty() { String::new() } else { format!(" {}", c.tag) }
     );
     let Some(board) = setup_board(&c.fen, &c.moves) else {
         println!("X bad-case");
@@ -93,13 +96,21 @@ pub fn run_case_best(c: &Case) -> Option<Ply> {
     sv::STOP_AT_POLL.store(if c.stop == 0 { u64::MAX } else { c.stop }, Ordering::Relaxed);
     *sv::RECORDER.lock().unwrap() = if c.tag.contains("deep") { None } else { Some(Vec::new()) };
     // exactly what `Uci::go` builds for `go depth D [nodes N]`: the depth limit is in the limits too
-    let limits = SearchLimits::new().nodes(c.nodes).depth(Some(c.depth));
+    let mut limits = SearchLimits::new().nodes(c.nodes).depth(Some(c.depth));
+    if c.vdiv > 0 {
+        // `go wtime T btime T` with the virtual clock: the time-management timer is T / 20 ms for either side
+        limits = limits.white_time(Some(u128::from(c.clock_ms))).black_time(Some(u128::from(c.clock_ms)));
+    }
+    sv::VCLOCK_CALLS.store(0, Ordering::Relaxed);
+    sv::VCLOCK_DIV.store(c.vdiv, Ordering::Relaxed);
     let mut search = Search::new(&board, Some(limits));
     let outcome = std::panic::catch_unwind(std::panic::AssertUnwindSafe(|| {
         search.search(&SimpleEvaluator, Some(c.depth));
     }));
     sv::STOP_AT_POLL.store(0, Ordering::Relaxed);
     sv::CACHE_OFF.store(false, Ordering::Relaxed);
+    let clock_calls = sv::VCLOCK_CALLS.load(Ordering::Relaxed);
+    sv::VCLOCK_DIV.store(0, Ordering::Relaxed);
     let writes = sv::RECORDER.lock().unwrap().take().unwrap_or_default();
     if outcome.is_err() {
         println!("X panic");
@@ -117,16 +128,20 @@ pub fn run_case_best(c: &Case) -> Option<Ply> {
             u8::from(w.running),
             w.ply
         );
+        if w.time_control {
+            println!("V {} {}", w.virtual_ms.map_or("-".to_string(), |v| v.to_string()), w.timer.map_or("-".to_string(), |v| v.to_string()));
+        }
     }
     let (n, sum) = tt_summary();
     let root = TRANSPOSITION_TABLE.read().unwrap().get(&board.zkey).copied();
     println!(
-        "R nodes={} seldepth={} best={} score={} polls={} ttsize={} ttsum={:x} root={}",
+        "R nodes={} seldepth={} best={} score={} polls={} clockreads={} ttsize={} ttsum={:x} root={}",
         search.get_nodes(),
         sv::seldepth(&search),
         sv::best_move(&search).map_or("-".to_string(), |m| move_fields(&m)),
         sv::best_score(&search).map_or("-".to_string(), |s| s.to_string()),
         sv::POLLS.load(Ordering::Relaxed),
+        if c.vdiv > 0 { clock_calls.to_string() } else { "-".to_string() },
         n,
         sum,
         root.map_or("-".to_string(), |e| format!("{}:{}:{}:{}", e.score, e.depth, bound_code(e.bound), move_fields(&e.best_ply)))
@@ -220,6 +235,8 @@ pub fn search_stream(args: &[String]) {
                     stop: f[4].parse().unwrap_or(0),
                     cache,
                     tag: f.get(6).map(|x| x.to_string()).unwrap_or_default(),
+                    clock_ms: 0,
+                    vdiv: 0,
                 });
             }
         }
@@ -231,7 +248,7 @@ pub fn search_stream(args: &[String]) {
                 let d = 1 + (rng.below(u64::from(maxdepth))) as u8;
                 for depth in [d, maxdepth] {
                     for _ in 0..repeat {
-                        run_case(&Case { fen: fen.clone(), moves: moves.clone(), depth, nodes: None, stop: 0, cache: if mode == "off" { "off" } else { "fresh" }, tag: String::new() });
+                        run_case(&Case { fen: fen.clone(), moves: moves.clone(), depth, nodes: None, stop: 0, cache: if mode == "off" { "off" } else { "fresh" }, tag: String::new(), clock_ms: 0, vdiv: 0 });
                     }
                 }
             }
@@ -261,7 +278,7 @@ pub fn search_stream(args: &[String]) {
                 let mut k = 1 + off;
                 while k <= total + 1 {
                     let (nodes, stop) = if mode == "budget" { (Some(k), 0) } else { (None, k) };
-                    run_case(&Case { fen: fen.clone(), moves: moves.clone(), depth: maxdepth, nodes, stop, cache: "fresh", tag: String::new() });
+                    run_case(&Case { fen: fen.clone(), moves: moves.clone(), depth: maxdepth, nodes, stop, cache: "fresh", tag: String::new(), clock_ms: 0, vdiv: 0 });
                     k += step;
                 }
             }
@@ -279,12 +296,40 @@ pub fn search_stream(args: &[String]) {
                 }
                 let mut first = true;
                 for d in depths {
-                    run_case(&Case { fen: fen.clone(), moves: moves.clone(), depth: d, nodes: None, stop: 0, cache: if first { "fresh" } else { "keep" }, tag: String::new() });
+                    run_case(&Case { fen: fen.clone(), moves: moves.clone(), depth: d, nodes: None, stop: 0, cache: if first { "fresh" } else { "keep" }, tag: String::new(), clock_ms: 0, vdiv: 0 });
                     first = false;
                 }
             }
         }
-        "mate" => mate_mode(&mut rng, count, maxdepth, shard, of),
+        "mate" => mate_mode(&mut rng, count, maxdepth, shard, of, false),
+        "mateoff" => mate_mode(&mut rng, count, maxdepth, shard, of, true),
+        "clock" => {
+            // game-clock interruptions at reproducible points: virtual time = clock consultations / vdiv, timer = clock / 20
+            let maxcases: u64 = arg(args, "maxcases", 120);
+            for (fen, moves) in pos.iter().take(count) {
+                if !mine(&mut idx) {
+                    continue;
+                }
+                // size of the full search in clock consultations
+                println!("S calibration");
+                TRANSPOSITION_TABLE.write().unwrap().clear();
+                let Some(board) = setup_board(fen, moves) else { println!("X calibration-end total=0"); continue };
+                sv::VCLOCK_CALLS.store(0, Ordering::Relaxed);
+                sv::VCLOCK_DIV.store(u64::MAX, Ordering::Relaxed);
+                let mut s = Search::new(&board, Some(SearchLimits::new().white_time(Some(u128::MAX / 4)).black_time(Some(u128::MAX / 4)).depth(Some(maxdepth))));
+                s.search(&SimpleEvaluator, Some(maxdepth));
+                let total = sv::VCLOCK_CALLS.load(Ordering::Relaxed);
+                sv::VCLOCK_DIV.store(0, Ordering::Relaxed);
+                println!("X calibration-end total={total}");
+                let step = total.div_ceil(maxcases.max(1)).max(1);
+                let mut k = 1 + rng.below(step);
+                while k <= total + 1 {
+                    // vdiv = 1: one virtual millisecond per consultation; timer = clock / 20 = k  =>  expires at the (k+1)-th consultation
+                    run_case(&Case { fen: fen.clone(), moves: moves.clone(), depth: maxdepth, nodes: None, stop: 0, cache: "fresh", tag: String::new(), clock_ms: 20 * k, vdiv: 1 });
+                    k += step;
+                }
+            }
+        }
         "deep" => {
             // few, large searches (hundreds of thousands of cached entries) repeated in ONE process from an emptied cache:
             // only the implementation's own runs are compared with each other (the driver skips the model for `tag=deep`)
@@ -299,7 +344,7 @@ pub fn search_stream(args: &[String]) {
                     continue;
                 }
                 for _ in 0..repeat.max(2) {
-                    run_case(&Case { fen: fen.to_string(), moves: vec![], depth: maxdepth, nodes: None, stop: 0, cache: "fresh", tag: "tag=deep".to_string() });
+                    run_case(&Case { fen: fen.to_string(), moves: vec![], depth: maxdepth, nodes: None, stop: 0, cache: "fresh", tag: "tag=deep".to_string(), clock_ms: 0, vdiv: 0 });
                 }
             }
         }
@@ -317,7 +362,7 @@ pub fn search_stream(args: &[String]) {
                         break;
                     }
                     let d = if step % 2 == 0 { maxdepth } else { maxdepth.saturating_sub(1).max(1) };
-                    let best = run_case_best(&Case { fen: fen.clone(), moves: moves.clone(), depth: d, nodes: None, stop: 0, cache: if step == 0 { "fresh" } else { "keep" }, tag: String::new() });
+                    let best = run_case_best(&Case { fen: fen.clone(), moves: moves.clone(), depth: d, nodes: None, stop: 0, cache: if step == 0 { "fresh" } else { "keep" }, tag: String::new(), clock_ms: 0, vdiv: 0 });
                     let Some(bm) = best else { break };
                     moves.push(bm.to_notation());
                     b.make_move(bm);
@@ -448,7 +493,7 @@ fn random_sparse(rng: &mut Rng) -> Option<Board> {
     Some(b)
 }
 
-fn mate_mode(rng: &mut Rng, count: usize, maxdepth: u8, shard: usize, of: usize) {
+fn mate_mode(rng: &mut Rng, count: usize, maxdepth: u8, shard: usize, of: usize, cache_off: bool) {
     let mut found = 0usize;
     let mut tries = 0u64;
     let mut per_cat = [0usize; 3];
@@ -502,13 +547,20 @@ fn mate_mode(rng: &mut Rng, count: usize, maxdepth: u8, shard: usize, of: usize)
             continue;
         }
         let fen = render_fen(&b);
+        if cache_off {
+            // positions rich in forced mates of different lengths, cache neutralised: root score vs plain minimax (C11)
+            for d in 2..=maxdepth.max(3) {
+                run_case(&Case { fen: fen.clone(), moves: vec![], depth: d, nodes: None, stop: 0, cache: "off", tag: String::new(), clock_ms: 0, vdiv: 0 });
+            }
+            continue;
+        }
         // fresh at 3 and at the maximum depth, then after earlier searches at the other depths in a random order
         for d in [3u8, maxdepth.max(3)] {
-            run_case(&Case { fen: fen.clone(), moves: vec![], depth: d, nodes: None, stop: 0, cache: "fresh", tag: tag.clone() });
+            run_case(&Case { fen: fen.clone(), moves: vec![], depth: d, nodes: None, stop: 0, cache: "fresh", tag: tag.clone(), clock_ms: 0, vdiv: 0 });
         }
         let mut first = true;
         for d in depths {
-            run_case(&Case { fen: fen.clone(), moves: vec![], depth: d, nodes: None, stop: 0, cache: if first { "fresh" } else { "keep" }, tag: tag.clone() });
+            run_case(&Case { fen: fen.clone(), moves: vec![], depth: d, nodes: None, stop: 0, cache: if first { "fresh" } else { "keep" }, tag: tag.clone(), clock_ms: 0, vdiv: 0 });
             first = false;
         }
     }
